@@ -4,5 +4,5 @@ P=$1; W=$2; F=$3
 cd $W && git checkout -q -- . && git apply seed/patch.diff seed/demo.diff && echo "--- with change:" && (CARGO_TARGET_DIR=$W/target cargo test --offline --lib $F 2>&1 | grep -E "^test result|panicked|FAILED" | head -5)
 git checkout -q -- . && git apply seed/demo.diff && echo "--- without change:" && (CARGO_TARGET_DIR=$W/target cargo test --offline --lib $F 2>&1 | grep -E "^test result" | head -3)
 git checkout -q -- .
-mkdir -p /verif/seeded/$P-agent && cp seed/patch.diff seed/demo.diff seed/meta.json /verif/seeded/$P-agent/ 2>/dev/null
+D=${4:-$P-agent}; mkdir -p /verif/seeded/$D && cp seed/patch.diff seed/demo.diff seed/meta.json /verif/seeded/$D/ 2>/dev/null
 cd /verif && git -C /repo apply $W/seed/patch.diff && echo "--- check on mutated /repo:" && (./check $P 2>&1 | grep -E "VIOLATION|UNDECIDED|tier=" | cut -c1-260 | head -8); git -C /repo checkout -- . ; git -C /repo status --short | head -3
